@@ -16,7 +16,7 @@ import (
 
 func init() {
 	Registry["C01"] = Prop{
-		Patterns: []string{"./ring"},
+		Patterns: []string{"./ring", "./loser"},
 		Run:      runC01,
 		Explanation: "Decides structural necessary conditions of 'key lookup returns the consistent-hash replica set with its exact quorum slack': (R1) the Operation bitmap: NewOp's extension loop covers every declared InstanceState, encode and decode use the same shifts, the two halves cannot overlap, allStatesRingOperation has every state healthy and no extension bit; (R2) Get and GetWithOptions both return getReplicationSetForKey, whose result is exactly Filter(findInstancesForKey(key, op, …), op, …) under one read-lock hold; " +
 			"(R3) the walk's bookkeeping: a newly seen instance is appended ⇔ the caller's filter (if any) includes it — under no other condition — and the set is extended ⇔ the operation declares that instance's state as extending; the instance examined is the owner of the current token; zone exhaustion counts all instances of the zone; (R4) the default strategy computes the quorum before removing unhealthy instances, over max(RF, walked), fails ⇔ healthy < quorum and returns slack = healthy − quorum. R2 also requires the replication factor given to Filter to be the caller's or the configured value on every path (never a derived quantity); R4 also requires an instance to stay in the set ⇔ InstanceDesc.IsHealthy(op, timeout, now), which is state-accepted ∧ heartbeat-fresh. Also: (R5) the token→owner index is rebuilt from the descriptor on every topology change and never modified (shared with C13.R7). NOT decided: the successor search, walk termination and zone counters arithmetic, the majority formula's value, the consequence for added/removed instances.",
@@ -45,6 +45,7 @@ func runC01(c *core.Ctx) {
 	c.Rule("R2", "single lookup implementation: Filter ∘ findInstancesForKey under one lock hold, RF passed on unchanged", 5)
 	c.Rule("R3", "walk bookkeeping: append ⇔ filter includes; extend ⇔ operation extends on the state; per-zone totals count all instances; early stop ⇔ every zone satisfied or exhausted", 5)
 	c.Rule("R5", "the token→owner index is rebuilt from the descriptor on every topology change and never modified (shared with C13.R7)", 1)
+	c.Rule("R6", "every token of the ring reaches the sorted lists the walk searches: the merges that build them drop nothing, 2^32-1 included (shared with C14.R3 and C14.R7)", 2)
 	c.Rule("R4", "default strategy: quorum computed before filtering over max(RF, walked); keep ⇔ IsHealthy (state ∧ one-sided heartbeat age ≤ timeout); slack = healthy − quorum", 6)
 	pkg := c.Prog.Pkg("ring")
 	if pkg == nil {
@@ -156,12 +157,29 @@ func runC01(c *core.Ctx) {
 		}
 		c.Analysed(f.String())
 		ok := false
+		var other []string
 		for _, b := range f.Graph().Blocks {
-			if r := an.ReturnOf(b); r != nil && len(r.Results) == 1 && strings.HasPrefix(f.Canon(r.Results[0]), "recv.getReplicationSetForKey(p0, p1, ") {
-				ok = true
+			if r := an.ReturnOf(b); r != nil && len(r.Results) == 1 {
+				if v := f.Canon(r.Results[0]); strings.HasPrefix(v, "recv.getReplicationSetForKey(p0, p1, ") {
+					ok = true
+				} else {
+					other = append(other, v)
+				}
 			}
 		}
-		c.Check(ok, "R2", "func="+m, f.Pos(), "returns getReplicationSetForKey(key, op, …) unchanged", 1)
+		c.Check(ok && len(other) == 0, "R2", "func="+m, f.Pos(), fmt.Sprintf("every return is getReplicationSetForKey(key, op, …) unchanged (no second lookup path): %v", other), 1)
+	}
+	// the quorum strategy is consulted at one place only, the analysed composition
+	{
+		var sites []string
+		for _, f := range an.Funcs(pkg) {
+			for _, call := range f.Calls(true) {
+				if sel, ok := call.Expr.Fun.(*ast.SelectorExpr); ok && sel.Sel.Name == "Filter" && call.In.Canon(sel.X) == "recv.strategy" {
+					sites = append(sites, an.FuncDisplay(f.Obj))
+				}
+			}
+		}
+		c.Check(len(sites) == 1 && sites[0] == "(*Ring).getReplicationSetForKey", "R2", "census:strategy.Filter", pkg.Syntax[0].Pos(), fmt.Sprintf("Ring.strategy.Filter is called from %v only", sites), 1)
 	}
 	if f := an.FindFunc(pkg, "Ring.getReplicationSetForKey"); f != nil {
 		c.Analysed(f.String())
@@ -216,6 +234,8 @@ func runC01(c *core.Ctx) {
 	c01Stop(c, pkg)
 	// R5: token owners are resolved through an index rebuilt from the descriptor on every topology change (shared with C13.R7)
 	c13ImmutableIndex(c, pkg, "R5")
+	c14ExtremumAs(c, pkg, "R6")
+	c14MergeMarkerAs(c, pkg, "R6")
 	// ---- R4
 	c01Filter(c, pkg)
 }
